@@ -18,6 +18,16 @@ func evalFact(f string, val map[string]int64) (known, truth bool) {
 			continue
 		}
 		a, ks := f[:i], f[i+len(op):]
+		if ks == "nil" {
+			// nil-ness of a valued atom: 0 = nil, anything else = non-nil
+			if v, ok := val[a]; ok {
+				if strings.TrimSpace(op) == "==" {
+					return true, v == 0
+				}
+				return true, v != 0
+			}
+			return false, false
+		}
 		k, err := strconv.ParseInt(ks, 10, 64)
 		var v int64
 		ok := false
